@@ -325,7 +325,17 @@ fn gen(g: &mut G, thorough: bool) -> Plan {
                     let head = b"HTTP/1.1 200 OK\r\nTransfer-Encoding: chunked\r\n\r\n".to_vec();
                     let start = head.len();
                     let mut w = head;
-                    w.resize(total, b'f');
+                    // (no draw) the line that never ends is all hex digits, or a size followed by an extension that
+                    // never ends (a name, a value, a quoted value that is never closed)
+                    let opening: &[u8] = [&b""[..], b"5;x=", b"1f;", b"5;q=\"", b"0;"][total % 5];
+                    w.extend_from_slice(opening);
+                    let fill = if opening.is_empty() { b'f' } else { b'a' };
+                    if w.len() < total {
+                        w.resize(total, fill);
+                    }
+                    if !opening.is_empty() {
+                        g.probe("endless-chunk-extension");
+                    }
                     bound = Some((start, 128, "chunk-size-line-without-end"));
                     ("endless-chunk-size-line", w)
                 }
